@@ -58,6 +58,7 @@ StartRun ==
         /\ kfFw' = {}
         /\ kfHard' = [n \in 1..Len(p.nodes) |-> ""]
         /\ lagFw' = {}
+        /\ mustCut' = {}
         /\ ranAt' = [n \in 1..Len(p.nodes) |-> 0]
         /\ verAt' = [n \in 1..Len(p.nodes) |-> 0]
         /\ histIn' = <<>>
@@ -101,12 +102,13 @@ TQPanic == IsEvent("qpanic") /\ QueryPanicked(l, Ev.n) /\ Consume
 TArm == IsEvent("arm") /\ Arm(l, Ev.n) /\ Consume
 TDisarm == IsEvent("disarm") /\ Disarm(l) /\ Consume
 TCancel == IsEvent("cancel") /\ Cancelled(l) /\ Consume
+TCyc == IsEvent("cyc") /\ CycProbe(l, Ev.callee, Ev.target, Ev.edges, Ev.found) /\ Consume
 (* markers and state dumps belong to the mechanism-level conformance *)
 TSkip == l <= Len(Rec) /\ Ev.e \in {"act", "dump"} /\ UNCHANGED obsVars /\ Consume
 
 Known == {"prog", "reset", "begin", "set", "world", "refresh_start", "refresh",
           "commit", "tracked", "drop", "query", "enter", "read", "exec", "restart",
-          "crash", "recovered", "crash_panic", "hang", "qpanic", "arm", "disarm", "cancel",
+          "crash", "recovered", "crash_panic", "hang", "qpanic", "arm", "disarm", "cancel", "cyc",
           "act", "dump"}
 
 TUnknown ==
@@ -126,7 +128,7 @@ Finish ==
 TraceNext ==
     \/ StartRun \/ EndRun \/ TBegin \/ TSet \/ TWorld \/ TRefreshStart \/ TRefresh
     \/ TCommit \/ TTracked \/ TDrop \/ TQuery \/ TEnter \/ TRead \/ TExec \/ TRestart
-    \/ TCrash \/ TRecovered \/ TCrashPanic \/ THang \/ TQPanic \/ TArm \/ TDisarm \/ TCancel \/ TSkip
+    \/ TCrash \/ TRecovered \/ TCrashPanic \/ THang \/ TQPanic \/ TArm \/ TDisarm \/ TCancel \/ TCyc \/ TSkip
     \/ TUnknown \/ Finish
 
 TraceSpec == TraceInit /\ [][TraceNext]_traceVars
